@@ -302,11 +302,64 @@ def stress_stage(res, tier, seed):
     res.extra["first_use_orders_seen"] = len(orders)
 
 
+def sanitizer_stages(res, seed):
+    """Supplementary (thorough tier): the same concurrent workload under ThreadSanitizer and under Miri's
+    schedule exploration. Only a report whose stack passes through a frame of /repo (or a deadlock) counts;
+    anything else is logged as a dependency observation. A stage that cannot be built is inconclusive
+    *for that stage only*."""
+    from ..common import HARNESS, WORK, cargo_env
+    stages = {}
+    env = cargo_env()
+    # --- ThreadSanitizer -------------------------------------------------------------------------
+    env_t = dict(env, RUSTFLAGS="-Zsanitizer=thread", CARGO_TARGET_DIR=os.path.join(WORK, "target-tsan"))
+    b = subprocess.run(["cargo", "+nightly", "build", "-Zbuild-std", "--target", "x86_64-unknown-linux-gnu", "--release", "--offline", "-p", "runtime_probe"],
+                       cwd=HARNESS, env=env_t, stdout=subprocess.PIPE, stderr=subprocess.STDOUT, text=True)
+    if b.returncode != 0:
+        stages["tsan"] = {"status": "inconclusive", "reason": "build failed: " + b.stdout[-400:]}
+    else:
+        exe = os.path.join(WORK, "target-tsan", "x86_64-unknown-linux-gnu", "release", "runtime_probe")
+        reports, qualifying, runs = 0, [], 0
+        for i in range(60):
+            p = subprocess.run([exe, "fmt-stress", json.dumps({"seed": seed * 7919 + i, "threads": 16})], stdout=subprocess.PIPE, stderr=subprocess.PIPE, text=True,
+                               env=dict(os.environ, TSAN_OPTIONS="halt_on_error=0 exitcode=66"), timeout=600)
+            runs += 1
+            blocks = p.stderr.split("WARNING: ThreadSanitizer")[1:]
+            reports += len(blocks)
+            for blk in blocks:
+                if "/repo/" in blk or "leptos_i18n" in blk:
+                    qualifying.append(blk[:1500])
+        stages["tsan"] = {"status": "violated" if qualifying else "held", "runs": runs, "reports": reports, "reports_through_repo_frames": len(qualifying)}
+        for q in qualifying[:3]:
+            res.violation("C18/tsan-report-through-repo-frame", q[:800], {"report": q})
+    # --- Miri schedules --------------------------------------------------------------------------
+    env_m = dict(env, MIRIFLAGS="-Zmiri-tree-borrows -Zmiri-ignore-leaks -Zmiri-disable-isolation -Zmiri-many-seeds=0..16",
+                 CARGO_TARGET_DIR=os.path.join(WORK, "target-miri"))
+    try:
+        m = subprocess.run(["cargo", "+nightly", "miri", "run", "--offline", "-p", "runtime_probe", "--", "fmt-stress", json.dumps({"seed": seed + 1, "threads": 3})],
+                           cwd=HARNESS, env=env_m, stdout=subprocess.PIPE, stderr=subprocess.PIPE, text=True, timeout=3600)
+        bad = [l for l in m.stderr.split("\n") if "Undefined Behavior" in l or "deadlock" in l.lower() or "data race" in l.lower()]
+        lines = [l for l in m.stdout.split("\n") if l.startswith("{")]
+        mism = [l for l in lines if '"mismatches":[]' not in l]
+        if m.returncode != 0 and not bad and not lines:
+            stages["miri"] = {"status": "inconclusive", "reason": m.stderr[-400:]}
+        else:
+            through_repo = [l for l in m.stderr.split("\n") if "/repo/" in l]
+            status = "violated" if (mism or (bad and through_repo) or any("deadlock" in x.lower() for x in bad)) else "held"
+            stages["miri"] = {"status": status, "schedules": len(lines), "ub_or_race_lines": bad[:5], "mismatching_runs": len(mism)}
+            if status == "violated":
+                res.violation("C18/miri-schedule-report", (bad + mism)[0][:600], {"stderr": m.stderr[-3000:]})
+    except subprocess.TimeoutExpired:
+        stages["miri"] = {"status": "inconclusive", "reason": "watchdog"}
+    res.extra["sanitizer_stages"] = stages
+
+
 def run(tier, seed, replay=None):
     res = Result("C18", tier, seed, RULE)
     parser_stage(res, tier, seed)
     e2e_stage(res, tier, seed)
     stress_stage(res, tier, seed)
+    if tier == "thorough" or os.environ.get("VERIF_SANITIZERS") == "1":
+        sanitizer_stages(res, seed)
     res.assumptions += ["ICU4X (compiled data) constructed directly in the probe is the reference for formatted text",
                         "`list_style` is taken as the documented option name (rustdoc and tests); the book's `list_length` is not asserted either way"]
     return res.finish(min_events=1000)
